@@ -37,9 +37,6 @@ Definition stored_matches (c : ctx) (k : kw) (v : list N) (st : option (list N))
 
 (* property clause: unchanged, or equal up to letter case for keyword-valued attributes
    (config values are compared as the integers / booleans they denote) *)
-Definition keyword_valued (k : kw) : bool :=
-  match k with KShape | KDirection | KFont | KFillPattern | KTextTransform => true | _ => false end.
-
 Definition unchanged_up_to_case (k : kw) (v : list N) (st : option (list N)) : bool :=
   match st with
   | None => false
